@@ -198,7 +198,13 @@ class Report:
             tail = " no-failing-input-found" if v.get("no_input") else ""
             print(f"VIOLATION property={self.prop} replay={v['replay']}{tail}")
             print(f"  obligation: {v['obligation']}\n  detail: {str(v['detail'])[:600]}")
-        und = [o for o in self.obligations if o["status"] == "unknown"]
+        lost = [o for o in self.obligations if o["status"] == "unknown" and o.get("kind") == "refinement-lost"]
+        for o in lost[:10]:
+            # a clause stronger than the property (same TEXT as a chain of operations) no longer verifies, and the languages
+            # were found equal on every argument tuple explored: the property held on everything explored, the for-all
+            # statement is not proved for this tree (listed under `undischarged` in the evidence)
+            print(f"PROOF-LOST (no violation found): {o['name']} ({o['backend'][-160:]})")
+        und = [o for o in self.obligations if o["status"] == "unknown" and o.get("kind") != "refinement-lost"]
         print(f"[{self.prop}] tier={self.tier} obligations={n_ob} discharged={n_dis} unknown={len(und)} "
               f"finite={len(self.finite)} bounded={len(self.bounded)} violations={len(self.violations)} "
               f"known={len(self.known_hits)} wall={wall:.1f}s")
